@@ -79,3 +79,59 @@ Definition submit_response (reg : registry) (default_mt : bytes) (parsed : optio
   | UseConsumer c => Delivered c (r_code r) (r_status r) (r_body r)
   | s => Failed s
   end.
+
+(* ---- which client OBJECT carries the call, seen through what only the client object determines ----
+   An http.Client is more than its Transport: its redirect policy, its cookie jar and its timeout are
+   applied by the client itself, above the round tripper. A client without a Transport of its own sends
+   through the process-wide default transport. Identities are bit masks so that a call that
+   consulted two clients is visible: 1 the operation client, 2 the runtime client, 4 the process default. *)
+Definition who_op : nat := 1.
+Definition who_rt : nat := 2.
+Definition who_default : nat := 4.
+
+Record client_cfg := mkclient {
+  c_transport : bool;   (* has a Transport of its own *)
+  c_redirect : nat;     (* CheckRedirect: 0 none (redirects followed silently), 1 a policy that follows, 2 a policy that stops at the redirect response *)
+  c_jar : bool;         (* has a cookie jar *)
+  c_timeout : bool      (* has a Timeout shorter than the slow server's delay *)
+}.
+
+Record call_trace := mktrace {
+  t_transport : nat;    (* mask of the round trippers that saw a request of this call *)
+  t_redirect : nat;     (* mask of the clients whose redirect policy was consulted *)
+  t_jar : nat;          (* mask of the clients whose jar was consulted *)
+  t_cookie : nat;       (* whose cookie the first request carried; 0 none *)
+  t_result : nat        (* 0 the final response reached the reader, 1 the redirect response did, 2 the client timed out *)
+}.
+
+Definition mask_of (b : bool) (who : nat) : nat := if b then who else 0.
+
+(* the server answers the first request with a redirect to a second location; when slow it first waits
+   longer than any client timeout *)
+Definition run_client (who : nat) (c : client_cfg) (slow : bool) : call_trace :=
+  let tr := if c_transport c then who else who_default in
+  let jar := mask_of (c_jar c) who in
+  if slow && c_timeout c then mktrace tr 0 jar jar 2
+  else mktrace tr (mask_of (negb (Nat.eqb (c_redirect c) 0)) who) jar jar (if Nat.eqb (c_redirect c) 2 then 1 else 0).
+
+(* Submit: the operation client when one is given, whatever its fields; else the runtime client *)
+Definition route_call (op : option client_cfg) (rt : client_cfg) (slow : bool) : call_trace :=
+  match op with
+  | Some c => run_client who_op c slow
+  | None => run_client who_rt rt slow
+  end.
+
+(* ---- several calls on one runtime; readers that keep the response they were handed ----
+   (runtime.NewAPIError keeps the ClientResponse; generated clients return it inside the error.)
+   What a kept response answers for code, status text and headers: always its own call's. *)
+Definition x_token : bytes := [88;45;84;111;107;101;110].
+Definition content_type : bytes := [67;111;110;116;101;110;116;45;84;121;112;101].
+
+Definition retained_view (r : response) : nat * bytes * bytes * bytes :=
+  (r_code r, r_status r, get_header r x_token, get_header r content_type).
+
+Definition submit_all (reg : registry) (default_mt : bytes) (calls : list (option bytes * response)) : list submitted :=
+  map (fun pc => submit_response reg default_mt (fst pc) (snd pc)) calls.
+
+Definition retained_all (calls : list (option bytes * response)) : list (nat * bytes * bytes * bytes) :=
+  map (fun pc => retained_view (snd pc)) calls.
